@@ -390,6 +390,34 @@ fn unmanaged_scenarios(rt: Runtime, mode: Mode, d: Duration, out: &mut Vec<Outco
             push(if huge == Duration::MAX { "huge_max" } else { "huge_quarter" }, log, v, None);
         }
         {
+            // a caller waiting with a finite timeout on a pool that is (or gets) closed: `Closed`, and in any
+            // case no `Timeout` before its time has passed
+            let long = Duration::from_secs(30);
+            let want_t = format!("{:?}", unmanaged::PoolError::Timeout);
+            let want_c = format!("{:?}", unmanaged::PoolError::Closed);
+            let pool = pool_for(Some(long));
+            let p2 = pool.clone();
+            let closer = tokio::spawn(async move {
+                tokio::time::sleep(d / 3).await;
+                p2.close();
+            });
+            let (r1, _o1, el1) = uget(&pool, mode, Some(long)).await;
+            let _ = closer.await;
+            let (r2, _o2, el2) = uget(&pool, mode, Some(long)).await;
+            let log = vec![format!("timeout {:?}: pool closed after {:?} while waiting -> {:?} after {:?}; get on the closed pool -> {:?} after {:?}", long, d / 3, r1, el1, r2, el2)];
+            let mut v = None;
+            let mut inc = None;
+            for (what, r, el) in [("closed while it waited", &r1, el1), ("called on the closed pool", &r2, el2)] {
+                match r {
+                    Res::Err(e) if *e == want_c => {}
+                    Res::Err(e) if *e == want_t && el < long => v = Some(("timeout_early", format!("get with timeout {:?} {}: Timeout after {:?}, long before its time had passed (Closed is the documented answer)", long, what, el))),
+                    Res::Err(e) if *e == want_t => inc = Some("the machine stalled".to_string()),
+                    other => v = Some(("unmanaged_closed_result", format!("get with timeout {:?} {}: {:?}", long, what, other))),
+                }
+            }
+            push("closed", log, v, inc);
+        }
+        {
             let pool = pool_for(Some(Duration::ZERO));
             let (r1, _x, _) = uget(&pool, mode, Some(Duration::ZERO)).await;
             let _ = pool.try_add(3);
